@@ -61,6 +61,18 @@ type op struct {
 	v    int         // LS MS
 	vp   [16]int     // VS: -1 = not set
 	data []byte      // AA
+	// VS: vp[6] is the number handed to the API, i.e. the value of one of the constants
+	// model.NFSPageModeUseNone/UseOutlines/UseThumb/UseOC; nfsWant is the PageMode the
+	// constant stands for (0, 1, 2, 4), which is what listing must show
+	nfsWant int
+}
+
+var nfsConst = []model.NonFullScreenPageMode{model.NFSPageModeUseNone, model.NFSPageModeUseOutlines, model.NFSPageModeUseThumb, model.NFSPageModeUseOC}
+var nfsMeans = []int{int(model.PageModeUseNone), int(model.PageModeUseOutlines), int(model.PageModeUseThumbs), int(model.PageModeUseOC)}
+
+func (o *op) setNFS(sym int) {
+	o.vp[6] = int(nfsConst[sym])
+	o.nfsWant = nfsMeans[sym]
 }
 
 func runes(s string) string {
@@ -476,6 +488,9 @@ func (s *store) edit(o op, ver int) {
 		if !vpValid(o.vp, ver) {
 			return
 		}
+		if o.vp[6] >= 0 {
+			o.vp[6] = o.nfsWant // what the constant means
+		}
 		if s.vp == nil {
 			c := o.vp
 			s.vp = &c
@@ -697,10 +712,7 @@ func genOp(r *vh.Run, g genCfg, ver int, st *store) op {
 			}
 			switch i {
 			case 6:
-				o.vp[i] = []int{0, 1, 2, 4}[r.Rand.Intn(4)]
-				if g.defects && rare(4) {
-					o.vp[i] = 3 // model.NFSPageModeUseOC
-				}
+				o.setNFS(r.Rand.Intn(4))
 			case 15:
 				o.vp[i] = 1 + r.Rand.Intn(300)
 			default:
@@ -780,8 +792,8 @@ func (t *taint) see(o op, st *store) {
 			t.rmAll = true
 		}
 	case "VS":
-		if o.vp[6] == 3 {
-			t.nfs3 = true
+		if o.vp[6] >= 0 && o.nfsWant == int(model.PageModeUseOC) {
+			t.nfs3 = true // model.NFSPageModeUseOC
 		}
 	case "AA":
 		if _, dup := st.att[o.strs[0]]; dup {
@@ -931,7 +943,15 @@ func main() {
 	defer os.RemoveAll(tmp)
 
 	none := [16]int{-1, -1, -1, -1, -1, -1, -1, -1, -1, -1, -1, -1, -1, -1, -1, -1}
-	vs := func(i, v int) op { o := op{code: "VS", vp: none}; o.vp[i] = v; return o }
+	vs := func(i, v int) op {
+		o := op{code: "VS", vp: none}
+		if i == 6 {
+			o.setNFS(v)
+		} else {
+			o.vp[i] = v
+		}
+		return o
+	}
 	pa := func(kv ...string) op {
 		o := op{code: "PA"}
 		for i := 0; i+1 < len(kv); i += 2 {
@@ -944,7 +964,7 @@ func main() {
 	for v := 0; v < 7; v++ {
 		fixed = append(fixed, []op{{code: "LS", v: v}, {code: "MS", v: v}, {code: "LR"}, {code: "MR"}})
 	}
-	for i, lim := range []int{2, 2, 2, 2, 2, 2, 5, 2, 5, 5, 5, 5, 2, 3, 2, 3} {
+	for i, lim := range []int{2, 2, 2, 2, 2, 2, 4, 2, 5, 5, 5, 5, 2, 3, 2, 3} {
 		h := []op{}
 		for v := 0; v < lim; v++ {
 			if i == 15 && v == 0 {
